@@ -454,7 +454,7 @@ class ConfParser:
                 self._confs["classical"] = ".true."
 
         if "cutoff_frequency" in arg_list:
-            if self._args.cutoff_frequency:
+            if self._args.cutoff_frequency is not None:
                 self._confs["cutoff_frequency"] = self._args.cutoff_frequency
 
         if "displacement_distance" in arg_list:
@@ -632,7 +632,7 @@ class ConfParser:
                 self._confs["random_displacements"] = nrand
 
         if "random_seed" in arg_list:
-            if self._args.random_seed:
+            if self._args.random_seed is not None:
                 seed = self._args.random_seed
                 if np.issubdtype(type(seed), np.integer) and seed >= 0 and seed < 2**32:
                     self._confs["random_seed"] = seed
@@ -666,11 +666,11 @@ class ConfParser:
                 self._confs["symmetry_tolerance"] = symtol
 
         if "tmax" in arg_list:
-            if self._args.tmax:
+            if self._args.tmax is not None:
                 self._confs["tmax"] = self._args.tmax
 
         if "tmin" in arg_list:
-            if self._args.tmin:
+            if self._args.tmin is not None:
                 self._confs["tmin"] = self._args.tmin
 
         if "tstep" in arg_list:
